@@ -556,6 +556,40 @@ theorem Inv_restart {s s' : St} (hi : Inv slotOf s) (h : stepRestart s = .ok s')
     | inl h => exact hi.histOk seg h k
     | inr h => subst h; exact keyLog_sorted_of_seq slotOf hi k
 
+theorem Inv_unsent {s s' : St} {c : Cmd} (hi : Inv slotOf s) (h : stepUnsent s c = .ok s') :
+    Inv slotOf s' := by
+  unfold stepUnsent at h
+  split at h
+  · exact nomatch h
+  split at h
+  · exact nomatch h
+  rename_i b x a hsp
+  obtain ⟨ht, _, _⟩ := splitFirst_spec _ _ _ _ _ hsp
+  injection h with h; subst h
+  have hsub : ∀ z, z ∈ b ∨ z ∈ a → z ∈ s.todo := by
+    intro z hz; rw [ht]; simp only [List.mem_append, List.mem_cons]
+    cases hz with
+    | inl h => exact Or.inl h
+    | inr h => exact Or.inr (Or.inr h)
+  apply Inv_of_sublist slotOf hi
+  · intro k
+    rw [seqOf_todo_split s k ht]
+    simp only [seqOf, outIds_eq, idsS_append]
+    refine List.Sublist.append (List.Sublist.refl _) ?_
+    refine List.Sublist.append ?_ (List.Sublist.refl _)
+    refine List.Sublist.append (List.Sublist.refl _) ?_
+    refine List.Sublist.append (List.Sublist.refl _) ?_
+    exact List.sublist_append_right _ _
+  · rfl
+  · intro p hp
+    simp only [routes, List.mem_append, List.mem_map] at hp ⊢
+    rcases hp with (hp | ⟨z, hz, rfl⟩) | hp
+    · exact Or.inl (Or.inl hp)
+    · exact Or.inl (Or.inr ⟨z, hsub z hz, rfl⟩)
+    · exact Or.inr hp
+  · exact hi.unserved
+  · rfl
+
 theorem Inv_step {s s' : St} {e : Ev} (hi : Inv slotOf s)
     (hq : match e with | .mig m => QuietStep slotOf s m | _ => True)
     (h : step slotOf s e = .ok s') : Inv slotOf s' := by
@@ -564,6 +598,7 @@ theorem Inv_step {s s' : St} {e : Ev} (hi : Inv slotOf s)
   | dispatch bid => exact Inv_dispatch slotOf hi h
   | srv n c asking o => exact Inv_srv slotOf hi h
   | recv bid ok => exact Inv_recv slotOf hi h
+  | unsent c => exact Inv_unsent slotOf hi h
   | mig m =>
     simp only [step] at h
     split at h
@@ -976,12 +1011,44 @@ theorem Inv2_restart {s s' : St} (hi : Inv2 s) (h : stepRestart s = .ok s') : In
     | inl h => exact hi.ownedH seg h e he
     | inr h => subst h; exact hi.owned e he
 
+theorem Inv2_unsent {s s' : St} {c : Cmd} (hi : Inv2 s) (h : stepUnsent s c = .ok s') : Inv2 s' := by
+  unfold stepUnsent at h
+  split at h
+  · exact nomatch h
+  split at h
+  · exact nomatch h
+  rename_i b x a hsp
+  obtain ⟨ht, _, _⟩ := splitFirst_spec _ _ _ _ _ hsp
+  injection h with h; subst h
+  have hcase : ∀ z ∈ s.todo, z = x ∨ z ∈ b ++ a := by
+    intro z hz; rw [ht] at hz
+    simp only [List.mem_append, List.mem_cons] at hz ⊢
+    rcases hz with h | h | h
+    · exact Or.inr (Or.inl h)
+    · exact Or.inl h
+    · exact Or.inr (Or.inr h)
+  apply Inv2_of hi
+  · rfl
+  · rfl
+  · rfl
+  · intro e he; exact he
+  · exact hi.owned
+  · intro b0 c0 hc
+    rcases hc with h0 | ⟨z, hz, h1, h2⟩ | h3 | h4
+    · exact Or.inl h0
+    · cases hcase z hz with
+      | inl hzx => subst hzx; exact Or.inr (Or.inr (Or.inr (by simp [h2])))
+      | inr hzx => exact Or.inr (Or.inl ⟨z, hzx, h1, h2⟩)
+    · exact Or.inr (Or.inr (Or.inl h3))
+    · exact Or.inr (Or.inr (Or.inr (by simp [h4])))
+
 theorem Inv2_step {s s' : St} {e : Ev} (hi : Inv2 s) (h : step slotOf s e = .ok s') : Inv2 s' := by
   cases e with
   | put bid c n => exact Inv2_put slotOf hi h
   | dispatch bid => exact Inv2_dispatch hi h
   | srv n c asking o => exact Inv2_srv slotOf hi h
   | recv bid ok => exact Inv2_recv hi h
+  | unsent c => exact Inv2_unsent hi h
   | mig m =>
     simp only [step] at h
     split at h
